@@ -37,7 +37,14 @@ class State:
 
 def _meta_of(segno, code):
     q = segno.QRCode(code)
-    return q, {'version': q.version, 'error': q.error, 'mask': q.mask, 'is_micro': q.is_micro,
+    from segno import utils
+    n = len(code.matrix)
+    direct = {'u:default_border': utils.get_default_border_size((n, n)), 'u:border_none': utils.get_border((n, n), None),
+              'u:border_7': utils.get_border((n, n), 7), 'u:border_0': utils.get_border((n, n), 0),
+              'u:symbol_size_default': utils.get_symbol_size((n, n)),
+              'u:symbol_size_3_1': utils.get_symbol_size((n, n), scale=3, border=1),
+              'u:symbol_size_1_0': utils.get_symbol_size((n, n), 1, 0)}
+    return q, {**direct, 'version': q.version, 'error': q.error, 'mask': q.mask, 'is_micro': q.is_micro,
                'designator': q.designator, 'mode': q.mode, 'symbol_size': q.symbol_size(),
                'default_border_size': q.default_border_size,
                'symbol_size_3_1': q.symbol_size(scale=3, border=1), 'symbol_size_2_0': q.symbol_size(2, 0),
